@@ -158,9 +158,20 @@ class SparselyBin(Factory, Container):
             out.bins[i] = Count.ed(v.entries)
         return out.specialize()
 
+    def _keepContentType(self, out):
+        """An immutable container (from JSON or ed) has no value template.
+
+        Its declared content type and name would be lost in zero/+/* while it has no bins; carry them along."""
+        if self.value is None:
+            out.contentType = self.contentType
+            out.contentName = getattr(self, "contentName", None)
+        return out
+
     @inheritdoc(Container)
     def zero(self):
-        return SparselyBin(self.binWidth, self.quantity, self.value, self.nanflow.zero(), self.origin)
+        return self._keepContentType(
+            SparselyBin(self.binWidth, self.quantity, self.value, self.nanflow.zero(), self.origin)
+        )
 
     @inheritdoc(Container)
     def __add__(self, other):
@@ -191,7 +202,7 @@ class SparselyBin(Factory, Container):
             for i, v in other.bins.items():
                 if i not in out.bins:
                     out.bins[i] = v.copy()
-            return out.specialize()
+            return self._keepContentType(out).specialize()
 
         raise ContainerException(f"cannot add {self.name} and {other.name}")
 
@@ -470,7 +481,7 @@ class SparselyBin(Factory, Container):
             else:
                 binsName = None
         else:
-            binsName = None
+            binsName = getattr(self, "contentName", None)
 
         if len(self.bins) > 0:
             bins_type = list(self.bins.values())[0].name
@@ -562,6 +573,7 @@ class SparselyBin(Factory, Container):
                 raise JsonFormatException(json, "SparselyBin.origin")
 
             out = SparselyBin.ed(binWidth, entries, json["bins:type"], bins, nanflow, origin)
+            out.contentName = binsName
             out.quantity.name = nameFromParent if name is None else name
             return out.specialize()
 
